@@ -265,14 +265,16 @@ type Op struct {
 
 type HTTPIn struct {
 	TransportErr bool   `json:"transport_err"`
+	URL          string `json:"url,omitempty"`       // credentialStatus.id; "" = a well-formed URL
+	Cancelled    bool   `json:"cancelled,omitempty"` // the context is already cancelled
 	Code         int    `json:"code"`
 	BodyKind     string `json:"body_kind"`
 	BodyHex      string `json:"body_hex,omitempty"` // only for short bodies
 	Body         []byte `json:"-"`
 	Size         int    `json:"size"`
-	Core         string `json:"core"`          // the JSON text before padding
-	Pad          string `json:"pad"`           // "space" | "garbage"
-	ReadFailAt   int    `json:"read_fail_at"`  // -1: the body reads to EOF; n: error after n bytes
+	Core         string `json:"core"`         // the JSON text before padding
+	Pad          string `json:"pad"`          // "space" | "garbage"
+	ReadFailAt   int    `json:"read_fail_at"` // -1: the body reads to EOF; n: error after n bytes
 	CloseErr     bool   `json:"close_err"`
 	Chunk        int    `json:"chunk"`
 }
@@ -295,7 +297,7 @@ type Input struct {
 	Ans        *Ans      `json:"answer,omitempty"`
 	Fault      string    `json:"fault,omitempty"` // "" = honest answer
 	Tree       *TreeSpec `json:"tree,omitempty"`
-	ProofNonce uint64    `json:"proof_nonce,omitempty"` // the nonce the honest proof was generated for
+	ProofNonce uint64    `json:"proof_nonce,omitempty"`  // the nonce the honest proof was generated for
 	Honest     string    `json:"honest_state,omitempty"` // decimal value of the honest issuer state
 	MustReject bool      `json:"must_reject,omitempty"`  // the fault changes a value the check depends on
 	SameAs     int       `json:"same_as,omitempty"`      // 1 + class of the honest answer when the edit is benign
@@ -475,11 +477,17 @@ func reference(t *table, a *Ans, nonce uint64) (cls, tsCls int, root *big.Int) {
 type stubResolver struct {
 	kind int
 	rs   verifiable.RevocationStatus
+	exp  verifiable.CredentialStatus // what ValidateCredentialStatus was called with
 }
 
-func (s stubResolver) Resolve(_ context.Context, _ verifiable.CredentialStatus) (verifiable.RevocationStatus, error) {
+func (s stubResolver) Resolve(_ context.Context, got verifiable.CredentialStatus) (verifiable.RevocationStatus, error) {
 	switch s.kind {
 	case 0:
+		// answers only when handed the caller's credential status
+		if got.ID != s.exp.ID || got.Type != s.exp.Type || got.RevocationNonce != s.exp.RevocationNonce ||
+			got.StatusIssuer != s.exp.StatusIssuer {
+			return verifiable.RevocationStatus{}, errors.New("stub resolver: unexpected credential status")
+		}
 		return s.rs, nil
 	case 1:
 		return verifiable.RevocationStatus{}, errors.New("stub resolver: no answer")
@@ -541,11 +549,13 @@ func runValidate(in *Input) (o vobs, buildErr error) {
 		}
 	}()
 	// the registry scenario
+	cs := verifiable.CredentialStatus{ID: "http://status.test/" + in.Type,
+		Type: verifiable.CredentialStatusType(in.Type), RevocationNonce: in.Nonce}
 	build := func(reg func(t verifiable.CredentialStatusType, r verifiable.CredentialStatusResolver),
 		del func(t verifiable.CredentialStatusType)) {
 		for _, op := range in.Ops {
 			if op.Reg {
-				reg(verifiable.CredentialStatusType(op.Type), stubResolver{kind: op.Kind, rs: rs})
+				reg(verifiable.CredentialStatusType(op.Type), stubResolver{kind: op.Kind, rs: rs, exp: cs})
 			} else {
 				del(verifiable.CredentialStatusType(op.Type))
 			}
@@ -576,8 +586,6 @@ func runValidate(in *Input) (o vobs, buildErr error) {
 		build(verifiable.RegisterStatusResolver, verifiable.DeleteStatusResolver)
 		opts = append(opts, verifiable.WithValidationStatusResolverRegistry(nil))
 	}
-	cs := verifiable.CredentialStatus{ID: "http://status.test/" + in.Type,
-		Type: verifiable.CredentialStatusType(in.Type), RevocationNonce: in.Nonce}
 	func() {
 		defer func() {
 			if r := recover(); r != nil {
@@ -1323,12 +1331,48 @@ func runHTTP(h *HTTPIn) (o hobs) {
 			o = hobs{panic: true, msg: fmt.Sprint(r)}
 		}
 	}()
-	rs, err := verifiable.IssuerResolver{}.Resolve(context.Background(),
-		verifiable.CredentialStatus{ID: "http://status.test/revocation/1", Type: verifiable.Iden3commRevocationStatusV1})
+	url := "http://status.test/revocation/1"
+	if h.URL != "" {
+		url = h.URL
+	}
+	ctx, cancel := context.WithCancel(context.Background())
+	defer cancel()
+	if h.Cancelled {
+		cancel()
+	}
+	rs, err := verifiable.IssuerResolver{}.Resolve(ctx,
+		verifiable.CredentialStatus{ID: url, Type: verifiable.Iden3commRevocationStatusV1})
 	if err != nil {
 		return hobs{msg: err.Error()}
 	}
 	return hobs{ok: true, ans: fromStatus(&rs)}
+}
+
+// probeTransport: does net/http hand a response back for this URL / context / transport?
+// (the primitive library calls http.NewRequestWithContext + Client.Do, independent of Resolve)
+func probeTransport(h *HTTPIn) bool {
+	old := http.DefaultClient.Transport
+	http.DefaultClient.Transport = stubRT{in: h}
+	defer func() { http.DefaultClient.Transport = old }()
+	url := "http://status.test/revocation/1"
+	if h.URL != "" {
+		url = h.URL
+	}
+	ctx, cancel := context.WithCancel(context.Background())
+	defer cancel()
+	if h.Cancelled {
+		cancel()
+	}
+	req, err := http.NewRequestWithContext(ctx, http.MethodGet, url, http.NoBody)
+	if err != nil {
+		return false
+	}
+	resp, err := http.DefaultClient.Do(req)
+	if err != nil {
+		return false
+	}
+	_ = resp.Body.Close()
+	return true
 }
 
 // the primitive json.Unmarshal on the WHOLE body, independent of the resolver
@@ -1366,10 +1410,14 @@ func (g *gen) httpCase(h *HTTPIn) {
 	}
 	in := &Input{Kind: "http", HTTP: h}
 	// oracle: an answer iff 2xx, fewer bytes than the limit, and the body parses
-	want := !h.TransportErr && h.Code >= 200 && h.Code < 300 && readOK && delivered < limit && pok && !h.CloseErr
+	noTransport := !probeTransport(h)
+	if noTransport {
+		g.rep.Count("http:no-response")
+	}
+	want := !noTransport && h.Code >= 200 && h.Code < 300 && readOK && delivered < limit && pok && !h.CloseErr
 	switch {
 	case o.panic:
-		if ppanic && !h.TransportErr && h.Code >= 200 && h.Code < 300 && readOK && delivered < limit {
+		if ppanic && !noTransport && h.Code >= 200 && h.Code < 300 && readOK && delivered < limit {
 			// not an answer, hence no violation of C09; it is the dependency defect D12 (C12)
 			g.rep.Count("http:json-decoder-panic(D12)")
 			g.rep.Notes = append(g.rep.Notes, "IssuerResolver.Resolve panics inside json.Unmarshal (go-merkletree-sql Proof.UnmarshalJSON) on body "+h.Core+": "+o.msg)
@@ -1413,7 +1461,7 @@ func (g *gen) httpCase(h *HTTPIn) {
 		// decoder as a total oracle); reported above, not written as a case
 		return
 	}
-	coq := fmt.Sprintf("%s %s %s %s %s %s %s", coqgen.Bool(!h.TransportErr), coqgen.Limbs(big.NewInt(int64(h.Code))),
+	coq := fmt.Sprintf("%s %s %s %s %s %s %s", coqgen.Bool(!noTransport), coqgen.Limbs(big.NewInt(int64(h.Code))),
 		coqgen.Limbs(big.NewInt(int64(delivered))), coqgen.Bool(readOK), parsed, coqgen.Bool(!h.CloseErr), obs)
 	g.addCase(in, "CHttp %d "+coq)
 }
@@ -1489,6 +1537,10 @@ func (g *gen) httpStream() error {
 	}
 	// transport / reader / close failures
 	g.httpCase(&HTTPIn{TransportErr: true, Code: 200, BodyKind: "status", Core: docs[0], Size: -1, ReadFailAt: -1})
+	for _, u := range []string{"://no-scheme", "http://bad host/", "\x7f", "unknown-scheme://x/y", "http://"} {
+		g.httpCase(&HTTPIn{URL: u, Code: 200, BodyKind: "status", Core: docs[0], Size: -1, ReadFailAt: -1})
+	}
+	g.httpCase(&HTTPIn{Cancelled: true, Code: 200, BodyKind: "status", Core: docs[0], Size: -1, ReadFailAt: -1})
 	for _, code := range []int{200, 404} {
 		for _, at := range []int{0, 10, len(docs[0]), limit - 1, limit, limit + 1} {
 			g.httpCase(&HTTPIn{Code: code, BodyKind: "status", Core: docs[0], Size: limit + 100, Pad: "space", ReadFailAt: at})
